@@ -268,6 +268,7 @@ def build_replay(profile='release', cfg_env=None):
             del env[k]
     env.update(cfg_env or {})
     env['CARGO_NET_OFFLINE'] = 'true'
+    os.makedirs(mirgen.SCRATCH, exist_ok=True)
     lock = open(os.path.join(mirgen.SCRATCH, 'replay-build.lock'), 'w')
     import fcntl
     fcntl.flock(lock, fcntl.LOCK_EX)
